@@ -244,6 +244,47 @@ def run(res, tier):
     res.ob('LIFECYCLE', f.where(), 'StartInternalThread signals the internal thread after starting it when Messages were already queued', ok, function=f.q, key='LIFECYCLE|%s|initial-signal' % f.q,
            message='Messages queued before StartInternalThread are not announced to the new thread: it sleeps with a non-empty queue')
     round3_rules(res, fx)
+    # ---- FD-VALID: descriptor 0 is a valid descriptor
+    res.rule('FD-VALID', 'in system/Thread.cpp a file descriptor (a value read with GetFileDescriptor()) is tested for validity against 0 only with `>= 0` / `< 0`: descriptor 0 is what a socket gets '
+                         'in a process that has closed stdin', floor=2)
+    n_fd = 0
+    for g in sorted((g for g in fx.funcs.values() if g.full and g.file.endswith('system/Thread.cpp')), key=lambda g: g.line):
+        fdl = set(v['d'] for v in g.walk() if v['k'] == 'VarDecl' and v['ch'] and any(x.is_call() and (x.get('q') or '').endswith('::GetFileDescriptor') for x in v['ch'][0].walk()))
+        for c in g.walk():
+            if c['k'] != 'BinaryOperator' or c.get('op') not in ('<', '<=', '>', '>=', '==', '!='):
+                continue
+            forms = A.rel_forms(c, True)
+            hit = [(l_, op_, r_) for (l_, op_, r_) in forms if r_.get('v') == 0 and ((l_['k'] == 'DeclRefExpr' and l_.get('d') in fdl) or (l_.is_call() and (l_.get('q') or '').endswith('::GetFileDescriptor')))]
+            if not hit:
+                continue
+            n_fd += 1
+            (l_, op_, r_) = hit[0]
+            ok = op_ in ('>=', '<')
+            res.ob('FD-VALID', g.where(c), '%s line %s: `%s` treats descriptor 0 as valid' % (g.q.split('::')[-1], c.get('l'), c.text(30)), ok, function=g.q, key='FD-VALID|%s|%s' % (g.q, c.text(30)),
+                   message='%s tests a file descriptor with `%s`: descriptor 0 counts as invalid, so when one end of the Thread\'s socket pair is fd 0 (stdin closed, as in a daemon) every signal byte '
+                           'for that end is silently skipped — the peer is never woken although its Message is queued' % (g.q, c.text(30)))
+    if n_fd < 2:
+        raise AnalysisBroken('FD-VALID: only %d descriptor validity tests found in system/Thread.cpp' % n_fd)
+    # ---- SIGNAL-HAS-SOCKETS: a wake-up can only be sent once the sockets exist
+    fst = fx.fn1(TH + '::StartInternalThread') if 'TH' in globals() else fx.fn1('muscle::Thread::StartInternalThread')
+    aux = [c for c in fst.walk() if c.is_call() and (c.get('q') or '').endswith('::StartInternalThreadAux')]
+    sigs = [c for c in fst.walk() if c.is_call() and re.search(r'Thread::(SignalOwner|SignalInternalThread|SignalAux)$', c.get('q') or '')]
+    if not aux:
+        raise AnalysisBroken('SEND-ORDER: StartInternalThread: the call of StartInternalThreadAux was not found')
+    early = [c for c in sigs if not P.must_precede(fst, aux, c)]
+    res.ob('SEND-ORDER', fst.where(early[0]) if early else fst.where(aux[0]), 'StartInternalThread signals only after StartInternalThreadAux() (which creates the signalling sockets)', not early,
+           function=fst.q, key='SEND-ORDER|%s|signal-after-sockets' % fst.q,
+           message='StartInternalThread calls %s before StartInternalThreadAux(): on a first start and on every restart the socket pair does not exist yet (CloseSockets() cleared it), so the signal is '
+                   'dropped — replies already queued are never announced, and since a signal is sent only when the queue goes from empty to non-empty, no later reply is announced either'
+                   % ((early[0].get('q') or '').split('::')[-1] if early else ''))
+    fie = [g for g in fx.funcs.values() if g.full and g.q.endswith('Thread::InternalThreadEntryAux')]
+    if fie:
+        so = [c for c in fie[0].walk() if c.is_call() and (c.get('q') or '').endswith('Thread::SignalOwner')]
+        under = any(any(A.emptiness(cn, t) is not None and A.emptiness(cn, t)[1] is False for (cn, t) in G.atoms_at(fie[0], c)) for c in so)
+        res.ob('SEND-ORDER', fie[0].where(so[0]) if so else fie[0].where(), 'the new thread announces replies that were queued before it started', bool(so) and under, function=fie[0].q,
+               key='SEND-ORDER|%s|announce-queued-replies' % fie[0].q,
+               message='InternalThreadEntryAux no longer signals the owner when the reply queue already holds Messages at start-up (queued in advance, or left over from before a restart): the owner, '
+                       'waiting on its wake-up socket, is never told about them')
     res.explanation = ('Static decision of the hand-off structure between a Thread and its owner: %d accesses to the Message queues all under the queue\'s own lock; enqueue and the first-Message decision in one '
                        'critical section, signalling after it and to the right side; in the receiver the wake-up drain precedes the dequeue and cannot occur between dequeue and block, every blocking call is '
                        'preceded by a dequeue attempt, holds no lock, and is followed by a re-entry that dequeues again; the wait condition counts notifications under its mutex and waits with a predicate. '
